@@ -432,6 +432,54 @@ Fixpoint cexpr_eqb (a b : cexpr) : bool :=
   | _, _ => false
   end.
 
+(* ================================================================== controller objects
+   A configuration identifies controllers by NAME.  The library refuses a formula in which two
+   different Controller objects bear one name (controller.merge_controllers, called by both
+   get_all_controllers).  Object identity is not visible in [cexpr]; the skeleton below keeps, for
+   every catalog, the controller OBJECT (name, identity) that governs it. *)
+Definition cobj : Type := (string * Z)%type.               (* Controller object: name, identity *)
+Inductive otree :=
+| ONode (kids : list otree)                                 (* any expression that is not a catalog *)
+| OCat (c : cobj) (members : list otree).                   (* Catalog governed by c *)
+
+(* d[k] = v on an insertion-ordered dict, any value type *)
+Fixpoint pdict_set {A} (d : list (string * A)) (k : string) (v : A) : list (string * A) :=
+  match d with
+  | [] => [(k, v)]
+  | (k', v') :: r => if String.eqb k' k then (k', v) :: r else (k', v') :: pdict_set r k v
+  end.
+(* s.add(c) on a set of Controllers (Controller.__eq__/__hash__ compare names: an equal element
+   already present is kept) *)
+Definition obj_set_add (s : list cobj) (c : cobj) : list cobj :=
+  if existsb (fun d => String.eqb (fst d) (fst c)) s then s else s ++ [c].
+
+(* hand-written merge_controllers(target, source): None = BiogemeError *)
+Fixpoint m_merge (target source : list cobj) : option (list cobj) :=
+  match source with
+  | [] => Some target
+  | c :: r => match assoc (fst c) target with
+              | Some i => if i =? snd c then m_merge target r else None
+              | None => m_merge (target ++ [c]) r
+              end
+  end.
+
+Definition merge_step (acc : option (list cobj)) (child : option (list cobj)) : option (list cobj) :=
+  match acc, child with Some a, Some s => m_merge a s | _, _ => None end.
+
+(* Expression.get_all_controllers / Catalog.get_all_controllers (a set: duplicate-free list) *)
+Fixpoint all_controllers (t : otree) : option (list cobj) :=
+  match t with
+  | ONode kids => fold_left (fun acc k => merge_step acc (all_controllers k)) kids (Some [])
+  | OCat c ms => fold_left (fun acc k => merge_step acc (all_controllers k)) ms (Some [c])
+  end.
+
+(* every controller object met in the formula, with repetition *)
+Fixpoint objs_of (t : otree) : list cobj :=
+  match t with
+  | ONode kids => flat_map objs_of kids
+  | OCat c ms => c :: flat_map objs_of ms
+  end.
+
 (* ================================================================== helper generators *)
 Definition beta_desc : Type := (string * bool)%type.                (* name, fixed (status != 0) *)
 (* DiscreteSegmentationTuple: variable name, mapping value -> category (dict order), reference *)
